@@ -249,6 +249,9 @@ def run_lexer_streams(chk, tier, formulas):
             chk.violation({'why': 'the lexer consumed a part of the text that is neither whitespace nor among the tokens it returns: that part of the formula is dropped',
                            'text': t, 'consumed': out[9:][:400], 'stream': 'lexer-drops'})
             continue
+        if out.startswith('E') and out.split(' ')[0] not in ('EUndefined', 'ETooLarge') and not out.startswith('EParser'):
+            chk.violation({'why': 'the lexer ends with an exception that is not the library\'s parser exception', 'text': t, 'impl': out[:120], 'stream': 'lexer-exception'})
+            continue
         cases.append(('lx ' + S(t), out, {'text': t}))
     chk.judge('lexer', cases, sample_cap=4)
     # one class at a time
